@@ -57,7 +57,9 @@ def raw_bytes(n):
 def raw_for(t, finite_floats=False):
     k = t[0]
     if t == "CH":
-        return st.one_of(st.binary(min_size=0, max_size=40),
+        special = [b"\xef\xbb\xbf", b"\xef\xbb\xbfANTSTATUS=OK", b"\xff\xfe", b"\xfe\xff", b"\x00", b"\xe2\x84\xa6",
+                   "e\u0301".encode(), "\u212b".encode(), "\uf900".encode(), b"\xc0\x80", b"\xed\xa0\x80", b"\r\n", b" x "]
+        return st.one_of(st.sampled_from(special), st.binary(min_size=0, max_size=40),
                          st.text(alphabet="abc xyz\xe9€", min_size=0, max_size=20).map(
                              lambda s: s.encode("utf-8")))
     if k in codec.INT_LETTERS:
